@@ -87,7 +87,18 @@ C08All(u) ==
 \* documents finished concurrently (the HTTP server shares one Traceroute between requests): identifiers stay pairwise distinct
 C16Stress(u) == { [id |-> "C16/concurrent/" \o ToString(g) \o "x" \o ToString(n), label |-> "ids/concurrent/" \o ToString(g), kind |-> "docstress",
                    extra |-> [g |-> g, n |-> n, runs |-> 3]] : g \in {2, 8}, n \in {IF Tier = "quick" THEN 400 ELSE 4000} }
-Cases == CASE Gen = "C16stress" -> C16Stress(0) [] Gen = "C16" -> C16All(0) [] Gen = "C17" -> C17All(0) [] Gen = "C18" -> C18All(0) [] Gen = "C18dup" -> C18Dup(0) [] Gen = "C08" -> C08All(0) [] OTHER -> {}
+\* runs of one document with DIFFERENT destination addresses (a name with several addresses, resolved per run): each destination
+\* carries the names of its own address; a failing lookup of one destination leaves only that one empty
+RunTo(d, hops) == [dst |-> d.b, dsts |-> d.s, hops |-> hops]
+C18Dst(u) ==
+    { LET ds == <<E1, E4, T4>>
+          dns == [x \in {E1.s, E4.s, T4.s, E2.s} |-> IF x = ds[bad].s THEN "!down" ELSE "n-" \o x]
+          nm == [x \in {E1.s, E4.s, T4.s, E2.s} \ {ds[bad].s} |-> <<"n-" \o x>>]
+      IN DocX("C18/dst/" \o ToString(bad), "enrich/destinations_differ/" \o ToString(bad),
+              <<RunTo(ds[1], <<Hop(E2, 3, FALSE), Hop(ds[1], 9, TRUE)>>), RunTo(ds[2], <<Hop(E2, 3, FALSE), Hop(ds[2], 9, TRUE)>>), RunTo(ds[3], <<Hop(ds[3], 9, TRUE)>>)>>,
+              <<1>>, TRUE, FALSE, dns, nm, FALSE, 0, FALSE, <<>>)
+      : bad \in 1..3 }
+Cases == CASE Gen = "C18dst" -> C18Dst(0) [] Gen = "C16stress" -> C16Stress(0) [] Gen = "C16" -> C16All(0) [] Gen = "C17" -> C17All(0) [] Gen = "C18" -> C18All(0) [] Gen = "C18dup" -> C18Dup(0) [] Gen = "C08" -> C08All(0) [] OTHER -> {}
 ASSUME LET c == Cases
            pk == IF NMax > 0 /\ Cardinality(c) > NMax THEN RandomSubset(NMax, c) ELSE c
        IN /\ ndJsonSerialize(IOEnv.VT_OUT, SetToSeq(pk))
